@@ -12,7 +12,7 @@
       [nk; nid; label; verdict under the given typing; first reason; member of the refined typing] *)
 From Coq Require Import List Ascii String ZArith NArith Bool.
 From Shexer Require Import Lib.PyStr Spec.Rdf Spec.ShexSem Model.Table Model.EntryPipe.
-From Shexer Require Import Lib.Dict Gen.Consts Model.Freq Model.FreqInst Model.Shexing Model.Run Model.SchemaOf.
+From Shexer Require Import Lib.Dict Gen.Consts Model.Freq Model.FreqInst Model.Shexing Model.Run Model.SchemaOf Model.C03Dom.
 Import ListNotations.
 
 Definition ve_of_row (r : list str) : vexpr :=
@@ -134,8 +134,20 @@ Definition c03_model_valid (t : table) : table :=
   | inr e => [[Str "err"; rerr_str e]]
   end.
 
+(** the two premises of Props/C03.v's [C03_conformance_partial] evaluated on the model's own
+    tracker and profiler: [strict_domb] (the property's strict domain) and [profile_exactb] (the
+    profile characterisation P1, monitored on every generated case) *)
+Definition okN53b (d : N) : bool := (0 <? d)%N && (d <? 2 ^ 53)%N.
+
+Definition c03_premises_entry (t : table) : table :=
+  match c03_premises okN53b (rcfg_of t) (graph_of t) with
+  | Some (a, b) => [[Str "ok"; bstr a; bstr b]]
+  | None => [[Str "err"]]
+  end.
+
 Definition entry_c03 (name : str) (t : table) : option table :=
   if str_eqb name (Str "c03_validate") then Some (c03_validate t)
   else if str_eqb name (Str "c03_model_schema") then Some (c03_model_schema t)
   else if str_eqb name (Str "c03_model_valid") then Some (c03_model_valid t)
+  else if str_eqb name (Str "c03_premises") then Some (c03_premises_entry t)
   else None.
